@@ -294,7 +294,7 @@ def stepE (text : String) : String :=
   match lexAll text with
   | none => "perr"
   | some (ts, tab) =>
-    match parseE ts with
+    match parseExpr ts with
     | none => "perr"
     | some e =>
       let out := printE e
@@ -303,7 +303,7 @@ def stepE (text : String) : String :=
       let t1 := match lexAll outText with
         | none => "rerr"
         | some (ts2, tab2) =>
-          match parseE ts2 with
+          match parseExpr ts2 with
           | none => "rerr"
           | some e2 => dump tab2 e2
       -- the proved prediction of the re-parsed tree (`roundtrip_expr_total`)
